@@ -52,9 +52,9 @@ Definition check (c : c04case) : verdict :=
          wf_ok := wf |}
   end.
 
-(* the two guards of the read theorem (used by the harness to classify a failing case; not part of wf) *)
-Definition guards (c : c04case) : bool * bool :=
-  match c with CRead _ li lines _ => (lines_in_order (layout_ix li) lines, tempo_on_grid tbl lines) end.
+(* the guard of the read theorem (used to classify a failing case; not part of wf) *)
+Definition guards (c : c04case) : bool :=
+  match c with CRead _ li lines _ => tempo_on_grid tbl lines end.
 
 Fixpoint failing_go (i : nat) (l : list c04case) (acc : list nat * list nat * list nat)
   : list nat * list nat * list nat :=
